@@ -1,4 +1,5 @@
 import CoapVerif.Lemmas.Replay
+import CoapVerif.Lemmas.ReplayEndp
 import CoapVerif.Spec.Replay
 /-
 C15 — OSCORE never accepts a replay or reuses a nonce; forgeries leave no trace.
@@ -337,6 +338,46 @@ theorem client_association_never_responds (cfg : Cfg) (e : Endp) (t : Nat) (a : 
     nstep cfg e (.sendRsp t obsOpt sendPiv) = (e, .err) := by
   simp [nstep, respond, ha, hc]
 
+/-! ### Nonces over whole histories of the sender side
+
+`nrun cfg (Endp.start f start) ops`: every history of one endpoint that is client and server on one security context
+and one session — protected requests of the peer arrive (authentic or forged, any token, any Partial IV, with / without /
+with a wrong Echo value, Observe or not), the endpoint protects requests of its own (their tokens in the SAME table as
+those of the requests it received), responses without Partial IV, with `OSCORE_SEND_PARTIAL_IV`, notifications and the
+Appendix B.1.2 challenge, the save callback runs at the `ssn_freq` watermark (Appendix B.1.1), the process crashes
+anywhere and restarts from the value last handed to the callback (also with another `ssn_freq`).  Every message is
+protected with the Sender Key; `nonces` is the ghost log of the nonces handed to the AEAD. -/
+
+/-- **The Partial IVs used with the endpoint's own Sender ID are strictly increasing along every history** — requests,
+responses with their own Partial IV, notifications, Echo challenges; across save watermarks, crashes and restarts;
+whatever arrives, whatever the tokens, Appendix B.1.2 on or off: no (Sender Key, own nonce) pair is used twice. -/
+theorem own_piv_strictly_increasing (cfg : Cfg) (f start : Nat) (ops : List NOp) (hs : start ≤ SEQ_MAX + 2 ^ 32)
+    (hl : ops.length < 2 ^ 63) : (ownsOf (nonces (nrun cfg (Endp.start f start) ops))).Pairwise (· < ·) :=
+  (nrun_owns cfg ops _ [] 0 (ninv_start f start hs) (by omega)).2
+
+theorem own_nonce_never_reused (cfg : Cfg) (f start : Nat) (ops : List NOp) (hs : start ≤ SEQ_MAX + 2 ^ 32)
+    (hl : ops.length < 2 ^ 63) : (ownsOf (nonces (nrun cfg (Endp.start f start) ops))).Nodup :=
+  (own_piv_strictly_increasing cfg f start ops hs hl).imp (fun h => Nat.ne_of_lt h)
+
+/-- **A response is never protected with a nonce of the endpoint's own** other than the fresh one of its own Partial
+IV: every message that goes out without a Partial IV uses the nonce of a request of the PEER (`Nonce.ofReq`) — in every
+state reached by any history (fix bba9d79; before it an own request with the token of an unanswered received request
+handed its nonce to the response). -/
+theorem response_nonce_is_peers (cfg : Cfg) (f start : Nat) (ops : List NOp) (hs : start ≤ SEQ_MAX + 2 ^ 32)
+    (hl : ops.length < 2 ^ 63) (op : NOp) (n : Nonce)
+    (h : (nstep cfg (nfinal cfg (Endp.start f start) ops) op).2 = .sent none n) : ∃ q, n = .ofReq q := by
+  obtain ⟨U, g⟩ := nfinal_inv cfg ops _ [] 0 (ninv_start f start hs) (by omega)
+  exact sent_none_ofReq ⟨U, _, g, by omega⟩ op n h
+
+/- NOT proved (kept as the target; what is proved of it: the `own` half above, for all histories, and the step facts):
+  theorem nonce_never_reused (cfg) (f start) (ops : List NOp) (hs) (hl) (hb : cfg.b12 = false)
+      (hc : ∀ op ∈ ops, ∀ f', op ≠ .crash f') : (nonces (nrun cfg (Endp.start f start) ops)).Nodup
+The `ofReq` half needs the invariant "the associations that can protect a response hold pairwise different request
+nonces, each recorded in the replay window and not used yet" along `Good`.  It is FALSE without the two hypotheses:
+after a crash the replay window is fresh (with B.1.2 off the peer's old requests are accepted again — RFC 8613 7.5.1),
+and with B.1.2 on a request that is decrypted but then dropped for a wrong Echo value leaves its association behind
+(`w1.3 r1 e2.4 w1.3 r1`), see design/C15.md. -/
+
 /-! ### Non-vacuity: concrete histories (the minimal witnesses of the defects fixed in libcoap, see design/C15.md) -/
 
 private def a (p : Nat) : Msg := .req ⟨true, p, .none⟩
@@ -425,5 +466,13 @@ example : nrun ⟨32, false⟩ Endp.fresh [.reqIn 1 ⟨true, 5, .none⟩ false, 
 example : nrun ⟨32, true⟩ (Endp.start 3 0) [.reqIn 1 ⟨true, 5, .none⟩ false, .reqIn 1 ⟨true, 6, .good⟩ false,
     .sendRsp 1 false false, .crash 3, .reqIn 1 ⟨true, 7, .none⟩ false] =
     [.chal (some 0), .verdict .acc, .sent none (.ofReq 6), .resumed 3, .chal (some 3)] := by decide
+
+-- own Partial IVs over a history with a token collision, an Echo challenge, a crash (hypotheses of
+-- own_piv_strictly_increasing / response_nonce_is_peers on a non-trivial instance)
+example : ownsOf (nonces (nrun ⟨32, true⟩ (Endp.start 3 0) [.reqIn 1 ⟨true, 5, .none⟩ false, .reqIn 1 ⟨true, 6, .good⟩ false,
+    .sendReq 1 false false, .sendRsp 1 false false, .crash 2, .reqIn 1 ⟨true, 7, .none⟩ false, .sendReq 2 true false])) = [0, 1, 3, 4] := by
+  decide
+example : (nstep ⟨32, false⟩ (nfinal ⟨32, false⟩ (Endp.start 3 0) [.reqIn 1 ⟨true, 5, .none⟩ false]) (.sendRsp 1 false false)).2
+    = .sent none (.ofReq 5) := by decide
 
 end Coap.C15
